@@ -116,12 +116,14 @@ def check(res, ok, rule, key, msg, sample=None):
 
 
 # ---- Serializer methods ------------------------------------------------------------------------------------------------------
-def ser_rule(ctx, res):
+def ser_rule(ctx, res, only=None, rule="C16.ser"):
+    """`only`: restrict to the given harness roots (C17 reuses the methods that Serialize for Value drives)."""
     P = ctx.P
-    rule = "C16.ser"
     VT = value_ty(P)
 
     def single_ok(root):
+        if only is not None and root not in only:
+            return None
         try:
             sh, outs, args = run_root(ctx, root)
         except Undecided as e:
@@ -160,6 +162,8 @@ def ser_rule(ctx, res):
               sample={"method": "serialize_" + root[9:], "produces": want, "through": conv})
     # floats: Number through TryFrom<float>, or Null when that fails
     for root, ft in (("root_ser_f32", "f32"), ("root_ser_f64", "f64")):
+        if only is not None and root not in only:
+            continue
         try:
             sh = mk_shape(P)
             rinst = P.inst[P.roots[root]]
@@ -232,11 +236,15 @@ def ser_rule(ctx, res):
               sample={"method": "serialize_newtype_variant", "produces": "{variant: value}"})
     # bytes: array of numbers (call-site facts: map over the bytes with Number(b.into()), collected)
     try:
+        if only is not None:
+            raise StopIteration
         inst = shape.find_inst(P, r"Serializer for json_syntax::Serializer>::serialize_bytes$|<json_syntax::Serializer as .*Serializer>::serialize_bytes$")
         names = [c["name"] for bi, c, t in static.calls(P, inst) if c is not None]
         ok = any("::map::<" in n for n in names) and any("::collect::<std::vec::Vec<json_syntax::Value>>" in n for n in names)
         check(res, ok, rule, rule + "/bytes", "serialize_bytes must produce the array of the bytes as numbers (map + collect); calls %r" % (names,), sample={"method": "serialize_bytes", "produces": "Array of numbers"})
         res.count("serializer_methods")
+    except StopIteration:
+        pass
     except Undecided as e:
         res.violation(rule, rule + "/bytes/missing", str(e))
     # compound starters
@@ -259,7 +267,7 @@ def ser_rule(ctx, res):
                     ok = ok and len(froms) == 1 and froms[0][1][0] == args[0]
         check(res, ok, rule, "%s/%s" % (rule, root[9:]), "%s must start an empty %s%s; got %s" % (root[9:], want, " named after the variant" if "variant" in root else "", describe(P, outs)),
               sample={"method": "serialize_" + root[9:], "starts": want})
-    res.floor(rule, "serializer_methods", 28)
+    res.floor(rule, "serializer_methods", 28 if only is None else len(only))
 
 
 def describe(P, outs):
